@@ -243,6 +243,17 @@ func (s *symCtx) eval1(v ssa.Value) []string {
 		return uniq(out)
 	case *ssa.UnOp:
 		if x.Op == token.MUL {
+			if rs, ok := loadStores(x); ok {
+				var out []string
+				for _, st := range rs {
+					if _, isFV := x.X.(*ssa.FreeVar); isFV {
+						out = append(out, s.inParent(x.X.(*ssa.FreeVar).Parent().Parent(), func(c *symCtx) []string { return c.eval(st.Val) })...)
+					} else {
+						out = append(out, s.eval(st.Val)...)
+					}
+				}
+				return uniq(out)
+			}
 			switch a := x.X.(type) {
 			case *ssa.Alloc:
 				return s.eval(a)
